@@ -88,10 +88,19 @@ func runC03(c *Ctx) {
 		}
 		// the tables callers pass for the slice parameter of the escaper
 		var tblParam types.Object
+		tblIsRecv := false
 		for _, prm := range esc.Type.Params.List {
 			if t := rinfo.TypeOf(prm.Type); t != nil {
 				if sl, ok := t.Underlying().(*types.Slice); ok && isStringType(sl.Elem()) && len(prm.Names) == 1 {
 					tblParam = rinfo.Defs[prm.Names[0]]
+				}
+			}
+		}
+		// the table may be the receiver of the escaper (a named []string type with the escaper as its method)
+		if tblParam == nil && esc.Recv != nil && len(esc.Recv.List) == 1 && len(esc.Recv.List[0].Names) == 1 {
+			if t := rinfo.TypeOf(esc.Recv.List[0].Type); t != nil {
+				if sl, ok := t.Underlying().(*types.Slice); ok && isStringType(sl.Elem()) {
+					tblParam, tblIsRecv = rinfo.Defs[esc.Recv.List[0].Names[0]], true
 				}
 			}
 		}
@@ -125,13 +134,24 @@ func runC03(c *Ctx) {
 			for _, fd := range allFuncDecls(rp) {
 				ast.Inspect(fd.Body, func(n ast.Node) bool {
 					call, ok := n.(*ast.CallExpr)
-					if !ok || pidx >= len(call.Args) {
+					if !ok || (!tblIsRecv && pidx >= len(call.Args)) {
 						return true
 					}
 					if fn := calleeOf(rinfo, call); fn == nil || rinfo.Defs[esc.Name] != types.Object(fn) {
 						return true
 					}
-					if id, ok := ast.Unparen(call.Args[pidx]).(*ast.Ident); ok {
+					tblArg := ast.Expr(nil)
+					if tblIsRecv {
+						if se, ok := call.Fun.(*ast.SelectorExpr); ok {
+							tblArg = se.X
+						}
+					} else if pidx < len(call.Args) {
+						tblArg = call.Args[pidx]
+					}
+					if tblArg == nil {
+						return true
+					}
+					if id, ok := ast.Unparen(tblArg).(*ast.Ident); ok {
 						if cl, ok := ast.Unparen(inits[rinfo.ObjectOf(id)]).(*ast.CompositeLit); ok {
 							callerTables = append(callerTables, cl)
 							tables = appendUniq(tables, id.Name)
